@@ -330,27 +330,24 @@ func newRNode() *rnode {
 func (rn *rnode) rinsert(topic []byte, msg *message.PublishMessage) error {
 	// If there's no more topic levels, that means we are at the matching rnode.
 	if len(topic) == 0 {
-		l := msg.Len()
+		// The previous message and its buffer may still be in use by connections
+		// that obtained them through Retained() and are sending them right now (the
+		// read lock is released by then), so they must not be reused: store a fresh
+		// copy.
+		buf := make([]byte, msg.Len())
 
-		// Let's reuse the buffer if there's enough space
-		if l > cap(rn.buf) {
-			rn.buf = make([]byte, l)
-		} else {
-			rn.buf = rn.buf[0:l]
-		}
-
-		if _, err := msg.Encode(rn.buf); err != nil {
+		if _, err := msg.Encode(buf); err != nil {
 			return err
 		}
 
-		// Reuse the message if possible
-		if rn.msg == nil {
-			rn.msg = message.NewPublishMessage()
-		}
+		rmsg := message.NewPublishMessage()
 
-		if _, err := rn.msg.Decode(rn.buf); err != nil {
+		if _, err := rmsg.Decode(buf); err != nil {
 			return err
 		}
+
+		rn.buf = buf
+		rn.msg = rmsg
 
 		return nil
 	}
